@@ -20,6 +20,23 @@ func ResetRegistries() {
 }
 
 var fullResetFuncs []func()
+var fullResetByPkg = map[string]func(){}
+
+// RegisterFullResetOf is RegisterFullReset with the package's name, so that a
+// harness can reset some packages only (re-evaluating initializers has a cost).
+func RegisterFullResetOf(pkg string, f func()) {
+	fullResetFuncs = append(fullResetFuncs, f)
+	fullResetByPkg[pkg] = f
+}
+
+// ResetGlobalsOf puts the named instrumented packages back into their initial state.
+func ResetGlobalsOf(pkgs ...string) {
+	for _, p := range pkgs {
+		if f := fullResetByPkg[p]; f != nil {
+			f()
+		}
+	}
+}
 
 // RegisterFullReset is called from the generated support file of every
 // instrumented package with a function that gives every package-level variable
